@@ -9,6 +9,9 @@ def run(tier, seed):
     from .progfam import tlc_family
     lits, _ = tlc_family("C06", "literals", tier, seed)
     cases = cases + [{"kind": "total", "entry": "program", "tokens": c["tokens"], "sep": " "} for c in lits]
+    # ... and so are the near misses of the static rules (C04): every one of them must be rejected with an error, not a panic
+    near, _ = tlc_family("C06", "static", tier, seed)
+    cases = cases + [{"kind": "total", "entry": "program", "tokens": c["tokens"], "sep": " "} for c in near]
     results = run_replay("C06", cases)
     calls = 0
     outcomes = {}
